@@ -55,7 +55,7 @@ def oracle_orth(ck, dims, J, name, shape):
     e2 = float((g - s).abs().max())
     if tuple(s.shape) != tuple(g.shape) or e2 > tol * max(1.0, float(s.abs().max())):
         ck.fail(desc + ': |backprop(g) - inverse(g)| = %.3g' % e2, replay); return 'transpose'
-    ck.oracle_ok((dims, J, name, tuple(shape)), group='orth%dd' % dims,
+    ck.oracle_ok((dims, J, str(name), tuple(shape)), group='orth%dd' % dims,
                  sample={'wavelet': name, 'J': J, 'shape': list(shape), 'AtA_minus_I': e1, 'energy_defect': abs(en - ex), 'backprop_minus_inverse': e2})
     return None
 
